@@ -19,6 +19,7 @@ structure C09St where
   hdrs : List Hdr := []           -- request headers given so far (new + hdr ops), first flow only
   sentIn : Nat := 0               -- request-body input bytes accepted in SendBody
   bodyEnded : Bool := false       -- the whole declared body was accepted and its end was signalled without an error
+  headDone : Bool := false        -- a head write left ≥ 200 bytes of its buffer unused: nothing of the head is left
   known : Option (String × String) := none
   fail : Option String := none
 
@@ -45,8 +46,17 @@ def oracleC09 (c : TCase) : Verdict :=
        | _ :: m :: _ :: _ :: _ :: rest =>
          { s1 with method := m, expect100 := (pairsOf rest).any (fun h => h.name == "expect" && h.value == strB "100-continue"),
                    despite := false, firstFlow := true, refused := false, lastResp := none,
-                   hdrs := pairsOf rest, sentIn := 0, bodyEnded := false }
+                   hdrs := pairsOf rest, sentIn := 0, bodyEnded := false, headDone := false }
        | _ => s1)
+    | "write" =>
+      if s.prevState != "sendRequest" then s1 else
+      (match t.op, t.res with
+       | [_, cap], ["bytes", _, out] =>
+         let used := if out == "-" then 0 else out.length / 2
+         if !out.startsWith "#" && used + 200 ≤ cap.toNat! then { s1 with headDone := true } else s1
+       | [_, cap], ["fault", "api:OutputOverflow"] =>
+         if 1000 ≤ cap.toNat! then { s with fail := some s!"a head write into {cap} bytes reports OutputOverflow: the flow is stuck in SendRequest" } else s1
+       | _, _ => s1)
     | "hdr" => (match t.op, t.res with | [_, k, v], ["ok"] => { s1 with hdrs := s.hdrs ++ [{ name := k.toLower, value := unhex v }] } | _, _ => s1)
     | "bwrite" =>
       if s.prevState != "sendBody" || !s.firstFlow then s1 else
@@ -59,14 +69,19 @@ def oracleC09 (c : TCase) : Verdict :=
          { s1 with sentIn := sent, bodyEnded := s.bodyEnded || endNow }
        | _, _ => s1)
     | "canproceed" =>
+      if s.prevState == "sendRequest" && s.headDone && t.res == ["bool", "false"] then
+        { s with fail := some "the whole request head was written (buffer space to spare), but the flow is not ready to advance" }
+      else
       if s.prevState == "sendBody" && s.bodyEnded && t.res == ["bool", "false"] then
         { s with fail := some "the whole request body was written and its end signalled, but the flow is not ready to advance" }
       else s1
     | "despite" => if t.res == ["unit"] then { s1 with despite := true } else s1
-    | "follow" => (match t.res with | "flow" :: m :: _ => { s1 with method := m, firstFlow := false, despite := false, refused := false, lastResp := none, bodyEnded := false, sentIn := 0, hdrs := [] } | _ => s1)
+    | "follow" => (match t.res with | "flow" :: m :: _ => { s1 with method := m, firstFlow := false, despite := false, refused := false, lastResp := none, bodyEnded := false, sentIn := 0, hdrs := [], headDone := false } | _ => s1)
     | "read100" =>
+      -- what the server sent decides, not what the implementation made of it: a complete response other than
+      -- a bare 100 is a refusal (C11), whatever was reported as consumed
       (match classifyLook (unhex (t.op.getD 1 "-")), t.res with
-       | .refused, ["count", "0"] => { s1 with refused := true }
+       | .refused, "count" :: _ => { s1 with refused := true }
        | _, _ => s1)
     | "resp" =>
       (match t.res with
@@ -105,6 +120,8 @@ def oracleC09 (c : TCase) : Verdict :=
           | none => s1)
        | "none" :: rest =>
          if canFlag rest == some true then { s with fail := some s!"readiness query true but advancing returned nothing: {t.raw.take 100}" }
+         else if from_ == "sendRequest" && s.headDone then
+           { s with fail := some "the whole request head was written (buffer space to spare), but the flow cannot advance" }
          else if from_ == "sendBody" && s.bodyEnded then
            { s with fail := some "the whole request body was written and its end signalled, but the flow cannot advance to receiving the response" }
          else s1
@@ -158,7 +175,7 @@ def oracleC10 (c : TCase) : Verdict :=
     | "read100" =>
       if s.decided100 then s1 else
       (match classifyLook (unhex (t.op.getD 1 "-")), t.res with
-       | .refused, ["count", "0"] => { s1 with not100 := true, decided100 := true }
+       | .refused, "count" :: _ => { s1 with not100 := true, decided100 := true }
        | .continue100 _, "count" :: _ => { s1 with decided100 := true }
        | _, _ => s1)
     | "resp" =>
